@@ -102,6 +102,11 @@ def edge_texts():
             ("lf-cr", "x = 1\n\ry = 2"), ("trailing-cr", "x = 1\r"), ("cr-in-string", "x = 'a\rb'"), ("form-feed", "x = 1\x0cy = 2"), ("nul", "x = 1\x00"),
             ("bom", "\ufeffx = 1"), ("line-separator", "x = 1\u2028y = 2"), ("nel", "x = 1\x85y = 2"), ("file-separator", "x = 1\x1cy = 2"),
             ("vertical-tab", "x = 1\x0by = 2"), ("surrogate", "x = '\ud800'"), ("long-line", "x = " + " + ".join(["1"] * 3000)), ("deep-parens", "x = " + "(" * 150 + "1" + ")" * 150),
+            ("first-line-only-spaces", " \nx = 1"), ("first-line-four-spaces", "    \nfrom nada_dsl import *\n\ndef nada_main():\n    return []\n"),
+            ("first-line-tab", "\t\nx = 1"), ("leading-blank-lines", "\n\n   \n\nx = 1\n"), ("trailing-spaces-only-lines", "x = 1\n    \n  \n"),
+            ("list-nesting-itself-in-a-loop", "from nada_dsl import *\n\ndef nada_main():\n    x = 1\n    acc = [x]\n    for i in range(3):\n        acc = [acc]\n    return []\n"),
+            ("type-changing-in-a-loop", "from nada_dsl import *\n\ndef nada_main():\n    acc = 1\n    for i in range(3):\n        acc = [acc, acc]\n        acc = str(acc)\n    return []\n"),
+            ("nested-loops-rebinding", "from nada_dsl import *\n\ndef nada_main():\n    a = []\n    for i in range(2):\n        for j in range(2):\n            a = [a]\n            a.append(a)\n    return []\n"),
             ("bad-indent", "from nada_dsl import *\ndef nada_main():\n  x = 1\n     y = 2\n    return []\n"), ("base", BASE)]
 
 
